@@ -101,15 +101,22 @@ c.returns("kw", "self.cose_kw_alg == (-5 if kw_alg.value == 'aes-kw-256' else -6
 c.modifies(**{"self.cose_kw_alg": OneOf(-6, -5)})
 
 # assumed (body out of reach: importlib): loads the KMS script and initialises it with the context
-c = Contract(FE, "Encryptor.init_kms_backend", ["C06"])
-c.model_only = True
-c.modular_only_reason = "importlib-based plug-in loading; assumed to yield the shipped file-based KMS (ncs/basic_kms.py) whose key directory is a function of the context"
-c.param("self", Obj(FE, "Encryptor"))
+# VERIFIED against the importlib model (contracts/C04_sign.plugin_checks): the KMS module is loaded from exactly the given script path, its suit_kms_factory is
+# called once, the object it returns becomes self.kms and is initialised once with the context of THIS request.  Assumed: the file is the shipped
+# ncs/basic_kms.py and SuitKMS.init_kms derives the key directory from the context (clause keys_dir, assumed at call sites, not proved here).
+import contracts.C04_sign as _C04  # noqa: E402
+c = Contract(FE, "Encryptor.init_kms_backend", ["C06", "C14"])
+c.param("self", ENCRYPTOR)
 c.param("kms_script", Str())
 c.param("context", Opt(Str()))
+c.variants = [("plug-in", {})]
+_st, _ck = _C04.plugin_checks("suit_kms_factory", "kms_script", FK, "SuitKMS", init_call="SuitKMS.init_kms", context_of=lambda it, ctx: ctx.arg("context"))
+c.setup = _st
+c.check("loading", _ck)
 c.modifies(**{"self.kms": KMS})
-c.returns("keys_dir", "pathstr(self.kms.keys_directory) == KEYS_DIR(context)")
+c.returns("keys_dir", "pathstr(self.kms.keys_directory) == KEYS_DIR(context)", assumed_only=True)
 c.raises("ValueError")
+c.raises("FileNotFoundError")
 
 c = Contract(FE, "Encryptor.encrypt_and_generate", ["C06", "C14", "C18"])
 c.param("self", ENCRYPTOR)
@@ -162,12 +169,15 @@ c.result(TupleT([Bytes(), Bytes(16), Bytes()]))
 
 
 # assumed (body out of reach: importlib): the encrypt script is the shipped ncs/encrypt_script.py
-c = Contract(FC, "_import_encryptor", ["C06"])
-c.model_only = True
-c.modular_only_reason = "importlib-based plug-in loading; assumed to return an instance of the shipped Encryptor (ncs/encrypt_script.py)"
+c = Contract(FC, "_import_encryptor", ["C06", "C14"])
 c.param("encrypt_script", Str())
+c.variants = [("plug-in", {})]
+_st2, _ck2 = _C04.plugin_checks("suit_encryptor_factory", "encrypt_script", FE, "Encryptor")
+c.setup = _st2
+c.check("loading", _ck2)
 c.result(Obj(FE, "Encryptor"))
 c.raises("ValueError")
+c.raises("FileNotFoundError")
 
 c = Contract(FC, "encrypt_and_generate", ["C06", "C14"])
 for name, t in (("encrypt_script", Str()), ("firmware", PathStr()), ("key_name", Str()), ("key_id", KEY_ID), ("context", Opt(Str())),
@@ -380,5 +390,5 @@ def replay_case(case):
 ASSUMPTIONS = [
     "AES-GCM correctness (cryptography.hazmat AESGCM): decrypt(key, n, AESGCM_ENC(key, n, p, aad), aad) == p; output = ciphertext || 16-byte tag",
     "os.urandom returns fresh, unpredictable bytes",
-    "Encryptor.init_kms_backend / _import_encryptor (importlib plug-in loading) yield the shipped basic_kms.SuitKMS / encrypt_script.Encryptor",
+    "plug-in loading is verified against a model of importlib (given path, executed once, factory once); assumed: the scripts handed to it are the shipped ncs/encrypt_script.py / ncs/basic_kms.py and SuitKMS.init_kms derives the key directory from the context",
 ]
